@@ -1,10 +1,10 @@
 (* C39 -- AtomsVisitor / atoms<...> / function_symbols.
    Soundness (exact): every reported element is a subexpression (reachable through get_args)
-   of a selected class.  Termination.  Completeness: every selected subexpression is reported,
-   stated for trees on which the library's equality (same hash and eq, or RCPBasicKeyLess
-   equivalence) identifies no two different subexpression trees ([closure_exact]; the set and
-   the memo set work modulo that equality, so without it "reported" can only mean "an equal
-   tree is reported" -- see the comment at atoms_complete). *)
+   of a selected class.  Termination.  Completeness in its exact form: every selected
+   subexpression is reported, on trees on which the library's equality (same hash and eq, or
+   RCPBasicKeyLess equivalence) identifies no two different subexpression trees ([closure_exact]).
+   The set and the memo set work modulo that equality, so in general "reported" can only mean
+   "an equal tree is reported": that is AtomsComplete.atoms_complete. *)
 From SE Require Export C39.HasSym.
 From Coq Require Import Lia.
 Local Open Scope N_scope.
@@ -198,15 +198,10 @@ Proof.
   apply N.ltb_ge in H1. apply N.ltb_ge in H2. apply N.le_antisymm; assumption.
 Qed.
 
-(* atoms_complete.  In general the result set holds one representative of each class of the
-   library's equality: a selected subexpression x is dropped by set_basic::insert when an
-   RCPBasicKeyLess-equivalent key is already stored, and is never visited when the memo set
-   holds an eq tree.  [closure_exact e] (distinct subexpression trees are never identified)
-   makes "a representative" the tree itself.  Full statement wanted:
-     subarg x e -> sel_match ks x = true -> exists y, In y (atoms ks e) /\ eq-closure x y
-   for every tree_ok e; not proved (it needs eq to be a congruence for the Mul / Pow nodes that
-   Add::get_args and Mul::get_args build). *)
-Theorem atoms_complete_partial : forall ks e x, closure_exact e ->
+(* In general the result set holds one representative of each class of the library's equality
+   (AtomsComplete.atoms_complete); [closure_exact e] (distinct subexpression trees are never
+   identified) makes "a representative" the tree itself. *)
+Theorem atoms_complete_exact : forall ks e x, closure_exact e ->
   subarg x e -> sel_match ks x = true -> In x (atoms ks e).
 Proof.
   intros ks e x Hex Hsub Hsel. unfold atoms, atoms_st.
@@ -246,6 +241,6 @@ Proof.
   unfold sel_match in H1. cbn [existsb] in H1. rewrite orb_false_r in H1.
   destruct x; try discriminate. eauto.
 Qed.
-Theorem function_symbols_complete_partial : forall e nm args, closure_exact e ->
+Theorem function_symbols_complete_exact : forall e nm args, closure_exact e ->
   subarg (EFunSym nm args) e -> In (EFunSym nm args) (function_symbols e).
-Proof. intros. apply atoms_complete_partial; auto. Qed.
+Proof. intros. apply atoms_complete_exact; auto. Qed.
